@@ -631,7 +631,11 @@ func (r *rig) runWS(c *WSCase) WSObs {
 				escaped.Store(fmt.Sprint(p))
 			}
 		}()
-		r.srv.ServeHTTP(w, req)
+		srv := r.srv
+		if r.override != nil {
+			srv = r.override
+		}
+		srv.ServeHTTP(w, req)
 	}()
 	var pending []byte
 	collect := func() ([]WSMsg, bool) {
